@@ -54,6 +54,7 @@ fn hb_edges(prog: &Prog, ev: &[E]) -> (Vec<(usize, usize, &'static str)>, bool) 
     let mut runlocks: BTreeMap<usize, Vec<usize>> = BTreeMap::new();
     let mut writes: BTreeMap<usize, Vec<usize>> = BTreeMap::new(); // atomic -> write events so far
     let mut sends: BTreeMap<(usize, i64), usize> = BTreeMap::new(); // (chan, value) -> send event
+    let mut ambiguous: std::collections::BTreeSet<(usize, i64)> = Default::default();
     let mut send_order: BTreeMap<usize, Vec<usize>> = BTreeMap::new();
     let mut recv_order: BTreeMap<usize, Vec<usize>> = BTreeMap::new();
     let mut once_done: BTreeMap<usize, usize> = BTreeMap::new();
@@ -144,7 +145,10 @@ fn hb_edges(prog: &Prog, ev: &[E]) -> (Vec<(usize, usize, &'static str)>, bool) 
                     complete = false;
                 }
                 if e.res == R_OK {
-                    sends.insert((*ch, *v), i);
+                    if sends.insert((*ch, *v), i).is_some() {
+                        // the same value sent twice on one channel: a receive no longer identifies its send
+                        ambiguous.insert((*ch, *v));
+                    }
                     let so = send_order.entry(*ch).or_default();
                     so.push(i);
                     if let Obj::Chan(Some(cap)) = &prog.objs[*ch] {
@@ -168,7 +172,9 @@ fn hb_edges(prog: &Prog, ev: &[E]) -> (Vec<(usize, usize, &'static str)>, bool) 
                     complete = false;
                 }
                 if e.res > 0 {
-                    if let Some(s) = sends.get(&(*ch, e.res)) {
+                    if ambiguous.contains(&(*ch, e.res)) {
+                        complete = false;
+                    } else if let Some(s) = sends.get(&(*ch, e.res)) {
                         edges.push((*s, i, "send-recv"));
                     }
                     recv_order.entry(*ch).or_default().push(i);
